@@ -54,6 +54,12 @@ func init() {
 				}
 				return x.MakeSliceOver(&vexec.ArrayV{E: elems}, 7)
 			})
+			ipcSel := w.Prog.MethodSets.MethodSet(w.Pkgs[run.ModPath+"/board"].Type("Board").Type()).Lookup(w.Pkgs[run.ModPath+"/board"].Pkg, "InvalidPieceCount")
+			ipc := w.Prog.MethodValue(ipcSel)
+			x.Stub(run.ModPath+"/uci.vpInvalid", func(x *vexec.Exec, a []vexec.Val, g *sym.Term) vexec.Val {
+				// the gate's verdict on the very board the stubbed FromFEN returns
+				return x.Call(ipc, []vexec.Val{x.Load(theBoard(x, g))}, nil, g)
+			})
 			x.Stub(run.ModPath+"/board.FromFEN", func(x *vexec.Exec, a []vexec.Val, g *sym.Term) vexec.Val {
 				ok := x.C.Var(1, "fromfen_ok")
 				bw := theBoard(x, g)
